@@ -9,6 +9,7 @@
  * See DESIGN.md 3 C10.
  */
 #include <signal.h>
+#include <sys/syscall.h>
 #include <sys/wait.h>
 #include <iv_signal.h>
 #include <time.h>
@@ -50,7 +51,7 @@ struct deliv_rec { int active, sidx; uint64_t chg0; int nwoken; short woken[MAXI
 static __thread struct deliv_rec tl_d;
 
 static struct {
-	uint64_t cases, deliveries, deliveries_checked, ambiguous, wakes, entries, handovers_expected, handovers_seen, dfl_checks, fork_raises, fork_raises_from_loop,
+	uint64_t cases, deliveries, deliveries_checked, ambiguous, wakes, entries, handovers_expected, handovers_seen, dfl_checks, fork_raises, fork_raises_from_loop, raw_forks,
 		 thread_directed, process_directed, during_handler, this_thread_first, exclusive_stops, obligations, discharged, nonloop_receiver;
 } S;
 static _Atomic long c_deliv, c_checked, c_amb, c_wakes, c_entries, c_ho_exp, c_ho_seen, c_dfl, c_td, c_pd, c_during, c_ttf, c_excl, c_nonloop;
@@ -333,6 +334,7 @@ static int send_signal(int si, int target_loop, int to_main)
 	return 1;
 }
 
+long __real_syscall(long, ...);
 static _Atomic int loop_forks;	/* per case */
 
 static void sig_cb(void *cookie)
@@ -393,7 +395,15 @@ static void sig_cb(void *cookie)
 		pid_t p;
 		int sgi;
 		vt_ext_add(1);
-		p = fork();
+		/* through fork(3) (the C library runs its atfork handlers) or through the bare system call (nothing runs) */
+		if (rng_pct(&lt->rng, 50)) {
+			p = fork();
+		} else {
+			p = (pid_t)__real_syscall(SYS_fork);
+			if (p == 0)
+				vt_mark_child();
+			S.raw_forks++;
+		}
 		if (p == 0) {
 			for (sgi = 0; sgi < NSIG_T; sgi++) {
 				struct sigaction old;
@@ -590,10 +600,10 @@ int main(int argc, char **argv)
 		run_case(i, seed);
 	mon_printf("STAT method=%s cases=%llu deliveries=%ld fanout_checked=%ld ambiguous_skipped=%ld received_by_non_loop_thread=%ld thread_directed=%ld process_directed=%ld "
 		   "this_thread_set_applied=%ld exclusive_sets=%ld wakes=%ld wakes_during_own_handler=%ld handler_runs=%ld handovers_expected=%ld handovers_seen=%ld "
-		   "default_disposition_checks=%ld fork_raises=%llu fork_raises_from_loop_thread=%llu obligations=%llu discharged=%llu shim_quiescences=%llu violations=%d\n",
+		   "default_disposition_checks=%ld fork_raises=%llu fork_raises_from_loop_thread=%llu of_which_bare_fork_syscall=%llu obligations=%llu discharged=%llu shim_quiescences=%llu violations=%d\n",
 		   g_method, (unsigned long long)S.cases, (long)c_deliv, (long)c_checked, (long)c_amb, (long)c_nonloop, (long)c_td, (long)c_pd,
 		   (long)c_ttf, (long)c_excl, (long)c_wakes, (long)c_during, (long)c_entries, (long)c_ho_exp, (long)c_ho_seen, (long)c_dfl,
-		   (unsigned long long)S.fork_raises, (unsigned long long)S.fork_raises_from_loop, (unsigned long long)S.obligations, (unsigned long long)S.discharged,
+		   (unsigned long long)S.fork_raises, (unsigned long long)S.fork_raises_from_loop, (unsigned long long)S.raw_forks, (unsigned long long)S.obligations, (unsigned long long)S.discharged,
 		   (unsigned long long)vt_stats.quiescences, mon_viol_total);
 	mon_printf("DONE\n");
 	return 0;
